@@ -51,6 +51,63 @@ Definition search_ok (search : pat -> str -> option mres) : Prop :=
     (* the antecedent of a short form is always captured *)
     (p = PShortAnte -> exists a b, gspan g_antecedent (m_groups m) = Some (a, b)).
 
+(* ---- guarded contracts.  search_ok's backward clause is false for Python's `$` on a window that
+   ends with "\n" (it also matches just before a final newline).  The windows the pipeline builds
+   are slices of the text; when the text has no whitespace character other than U+0020 (eyecite's
+   `all_whitespace` cleaning) none of them ends with a newline.  search_ok_w relativises the
+   backward clause to a window predicate, search_ok_g is the instance for such texts. ---- *)
+Definition ws_clean (is_space : N -> bool) (w : str) : Prop :=
+  forall c, In c w -> is_space c = true -> c = 32%N.
+
+Definition search_ok_w (Wok : str -> Prop) (search : pat -> str -> option mres) : Prop :=
+  forall p w m, search p w = Some m ->
+    mres_ok w m /\
+    (fwd_pat p = true -> m_start m = 0%nat) /\
+    (bwd_pat p = true -> Wok w -> m_end m = length w) /\
+    (fwd_pat p = true -> forall a b, gspan g_pin_cite (m_groups m) = Some (a, b) -> a = 0%nat) /\
+    (p = PPostFull -> forall a b, gspan g_parenthetical (m_groups m) = Some (a, b) ->
+       b < m_end m /\
+       forall k x y, In (k, Some (x, y)) (m_groups m) -> str_eqb k g_parenthetical = false -> (y <= a)%nat)%nat /\
+    (p = PShortAnte -> exists a b, gspan g_antecedent (m_groups m) = Some (a, b)).
+
+Definition search_ok_g (is_space : N -> bool) (search : pat -> str -> option mres) : Prop :=
+  forall p w m, search p w = Some m ->
+    mres_ok w m /\
+    (fwd_pat p = true -> m_start m = 0%nat) /\
+    (bwd_pat p = true -> ws_clean is_space w -> m_end m = length w) /\
+    (fwd_pat p = true -> forall a b, gspan g_pin_cite (m_groups m) = Some (a, b) -> a = 0%nat) /\
+    (p = PPostFull -> forall a b, gspan g_parenthetical (m_groups m) = Some (a, b) ->
+       b < m_end m /\
+       forall k x y, In (k, Some (x, y)) (m_groups m) -> str_eqb k g_parenthetical = false -> (y <= a)%nat)%nat /\
+    (p = PShortAnte -> exists a b, gspan g_antecedent (m_groups m) = Some (a, b)).
+
+Lemma search_ok_w_of_ok : forall Wok search, search_ok search -> search_ok_w Wok search.
+Proof.
+  intros Wok search H p w m Hs. destruct (H p w m Hs) as (H1 & H2 & H3 & H4 & H5 & H6).
+  split; [exact H1|]. split; [exact H2|]. split; [intros Hp _; exact (H3 Hp)|].
+  split; [exact H4|]. split; [exact H5|exact H6].
+Qed.
+
+Lemma search_ok_g_of_ok : forall is_space search, search_ok search -> search_ok_g is_space search.
+Proof. intros is_space search H. exact (search_ok_w_of_ok (ws_clean is_space) search H). Qed.
+
+Lemma search_ok_w_of_g : forall is_space search,
+  search_ok_g is_space search -> search_ok_w (ws_clean is_space) search.
+Proof. intros is_space search H. exact H. Qed.
+
+Lemma ws_clean_incl : forall is_space (w w' : str),
+  (forall c, In c w' -> In c w) -> ws_clean is_space w -> ws_clean is_space w'.
+Proof. intros is_space w w' Hi H c Hc. exact (H c (Hi c Hc)). Qed.
+
+Lemma ws_clean_slice : forall is_space (w : str) a b,
+  ws_clean is_space w -> ws_clean is_space (slice w a b).
+Proof.
+  intros is_space w a b H. apply (ws_clean_incl is_space w); [|exact H].
+  intros c Hc. unfold slice in Hc.
+  rewrite <- (firstn_skipn a w). apply in_or_app. right.
+  rewrite <- (firstn_skipn (b - a) (skipn a w)). apply in_or_app. left. exact Hc.
+Qed.
+
 Definition refs_ok (refsearch : list (str * str) -> str -> list (nat * nat * list (str * option str))) : Prop :=
   forall names s a b gd, In (a, b, gd) (refsearch names s) ->
     (a <= b)%nat /\ (b <= length s)%nat /\
